@@ -238,3 +238,45 @@ def rule_factory_default(ctx, r, func_key, param, want, why):
     except Exception:
         got = "?"
     r.check(got == want and type(got) is type(want), con, f"`{param}` defaults to {want!r}", f"`{param}` defaults to {got!r} instead of {want!r}: {why}", fn.where)
+
+
+def rule_coroutines_awaited(ctx, r, module_names=("gwf.backends.local",)):
+    """Calling an `async def` only creates a coroutine object; a call statement that drops it (no await, not handed to create_task/gather/...) does nothing at
+    all - the request is acknowledged and never carried out.  Every call statement whose callee resolves to a coroutine function of the package is examined."""
+    import ast
+    from ..index import walk_no_nested
+    idx, res = ctx.index, ctx.resolver
+    n_async_calls = 0
+    for f in idx.functions.values():
+        if f.module.name not in module_names:
+            continue
+        for st in walk_no_nested(f.node):
+            calls = []
+            if isinstance(st, ast.Expr) and isinstance(st.value, ast.Call):
+                calls = [(st.value, "its value is discarded")]
+            for call, why in calls:
+                if isinstance(call.func, ast.Attribute):
+                    # only receivers whose class is known: a method resolved merely by its name (proc.kill() vs Scheduler.kill) proves nothing
+                    try:
+                        types = res.class_of_expr(call.func.value, f)
+                    except Exception:
+                        types = set()
+                    if not any(kind == "cls" for kind, _c in types):
+                        continue
+                try:
+                    callees = res.callees(call, f, {})
+                except Exception:
+                    callees = []
+                targets = [getattr(c, "finfo", c) for c in callees]
+                targets = [t for t in targets if hasattr(t, "node")]
+                if targets and all(isinstance(t.node, ast.AsyncFunctionDef) for t in targets):
+                    n_async_calls += 1
+                    r.violation(f"{f.module.relpath}::{f.qual}::unawaited-{targets[0].name}",
+                                f"{f.qual} calls the coroutine function {targets[0].qual} as a statement without awaiting it (line {call.lineno}; {why}): the coroutine is created and "
+                                "never runs, so the request it stands for is acknowledged but never carried out", f"{f.module.relpath}:{call.lineno}")
+    # count awaited calls of coroutine functions as the analysed instances
+    n_await = 0
+    for f in idx.functions.values():
+        if f.module.name in module_names:
+            n_await += sum(1 for n in walk_no_nested(f.node) if isinstance(n, ast.Await))
+    r.ok(f"src/{module_names[0].replace('.', '/')}.py::coroutine-calls", f"{n_await} await expressions; no coroutine function of the package is called as a bare statement", f"src/{module_names[0].replace('.', '/')}.py:1")
